@@ -32,7 +32,7 @@ ASSUMPTIONS = [
     "sums compared to 1e-12 relative (cells are doubles); assets whose unrealised cost is below 1e-12 (dust under RP2's 13-decimal resolution) are not judged",
 ]
 
-HIST = gen.GenCfg(min_steps=3, max_steps=12, max_exchanges=3, max_holders=2, bulk_prob=0.06)
+HIST = gen.GenCfg(min_steps=3, max_steps=12, max_exchanges=3, max_holders=2, bulk_prob=0.06, fiat_columns=True)
 FLAVOURS = ("mixed", "mixed", "mixed", "fully_sold", "income_only", "buy_only", "transfer_heavy")
 REL = Fraction(1, 10**12)
 
